@@ -142,7 +142,8 @@ def canonKeptRoundTrips (T : RouteTable) : Bool :=
 
 /-! ### the other defect classes, each as a Boolean over a whole route table -/
 
-/-- a route that sends the unit as its display string cannot bring `delta_degC` back -/
+/-- a route whose string form cannot name `delta_degC` cannot bring it back (no such route since the
+    parser fix; the check stays for a table in which the flag is set) -/
 def deltaDisplayShows (T : RouteTable) : Bool :=
   T.all fun p => !(!p.2.unitSame && p.2.unitByDisplayStr) || errOf (restoreQ p.2 wDelta) == some .UnitParseError
 
